@@ -148,6 +148,15 @@ class DetNames:
 # ----------------------------------------------------------------------------------------------
 
 BAD_TAIL = b"fichier introuvable: caf\xe9\n"  # Latin-1 text: not valid UTF-8
+EARLY_ERR = b"warning: this may take a while\n"  # what a chatty program prints on STDERR right after it was started
+
+
+def early_bytes(script):
+    """STDERR bytes a program has already written when it is still running (script flag `early_err`); with `bad_bytes`
+    the undecodable message is part of them instead of coming last."""
+    if not script.get("early_err"):
+        return b""
+    return EARLY_ERR + (BAD_TAIL if script.get("bad_bytes") else b"")
 
 
 class SimPopen:
@@ -258,7 +267,10 @@ class SimPopen:
             else:
                 w.block_until(w.now + max(timeout, 0))
                 if self.state == "running":
-                    raise _real_subprocess.TimeoutExpired(self.args, timeout)
+                    # like the real communicate(): what has been read from the pipes so far travels with the exception,
+                    # as bytes, also in text mode
+                    early = early_bytes(self.rec.script) if self.draining else b""
+                    raise _real_subprocess.TimeoutExpired(self.args, timeout, output=None, stderr=early or None)
 
     def communicate(self, input=None, timeout=None):
         self.communicates += 1
@@ -278,13 +290,18 @@ class SimPopen:
         """What the pipe reader hands out as STDERR text. A program may print bytes that are not valid in the
         encoding the wrapper asked for (a message in the locale's 8-bit encoding): like the real Popen, decoding
         happens on every communicate() call and raises UnicodeDecodeError every time unless an error policy was given."""
-        if not self.rec.script.get("bad_bytes") or self.encoding is None:
+        script = self.rec.script
+        early = early_bytes(script)
+        if self.encoding is None or not (script.get("bad_bytes") or early):
             return self._err
         w = SimPopen.world
-        if not getattr(self, "_bad_counted", False):
+        if script.get("bad_bytes") and not getattr(self, "_bad_counted", False):
             self._bad_counted = True
             w.stats["fault:undecodable-stderr-bytes"] += 1
-        raw = self._err.encode(self.encoding) + BAD_TAIL
+        if early:
+            raw = early + self._err.encode(self.encoding)
+        else:
+            raw = self._err.encode(self.encoding) + BAD_TAIL
         return raw.decode(self.encoding, self.errors or "strict")
 
     def kill(self):
